@@ -119,7 +119,7 @@ func c03Expect(routes []c03Route, matcher string, globDisabled bool, reqHost str
 
 func TestVerifC03Select(t *testing.T) {
 	L := ev.Begin("C03", "c03-select", "exploration",
-		"all tables of <=K routes over host patterns x paths (every second table is reached through a detour: all other pool routes are added for a temporary service and deleted again); all requests host x tls x path; matcher in prefix,iprefix,glob; glob matching on/off; reference = candidate set + precedence from the statement. non-trivial = request with >=2 candidate routes")
+		"all tables of <=K routes over host patterns x paths (every second table is reached through a detour: all other pool routes are added for a temporary service and deleted again); all requests host x tls x path; matcher in prefix,iprefix,glob; glob matching on/off; reference = candidate set + precedence from the statement; every fifth table is followed by a reload that adds a route while the glob cache stays; the prefix / iprefix matchers on every pair of strings <=2 over letters and their ASCII neighbours. non-trivial = request with >=2 candidate routes")
 	K := 3
 	if ev.Thorough() {
 		K = 4
@@ -228,8 +228,71 @@ func TestVerifC03Select(t *testing.T) {
 				}
 			}
 		}
+		// the listener's glob cache outlives the table: after a reload that adds one more route, a cache that has
+		// seen the old table must give the answers a fresh cache gives
+		if si%5 == 0 {
+			extra := pool[(si*7+3)%nLit]
+			dup := false
+			for _, idx := range sub {
+				if pool[idx] == extra {
+					dup = true
+				}
+			}
+			if !dup {
+				tbl2, err := vfTable(text + fmt.Sprintf("route add s9 %s%s http://10.0.0.9:80/\n", extra.host, extra.path))
+				if err == nil {
+					for _, m := range matchers {
+						if hasGlobPath && m != "glob" {
+							continue
+						}
+						for _, rh := range c03ReqHosts {
+							for _, rp := range c03ReqPaths {
+								n++
+								var a, b *Target
+								ev.Guard(func() {
+									a = tbl2.Lookup(vfReq(rh, rp, false), "", rrPicker, Matcher[m], gc, false)
+									b = tbl2.Lookup(vfReq(rh, rp, false), "", rrPicker, Matcher[m], NewGlobCache(100), false)
+								})
+								if (a == nil) != (b == nil) || (a != nil && a.Service != b.Service) {
+									L.Violation("answer-depends-on-what-the-glob-cache-saw-under-the-previous-table", map[string]interface{}{"table": strings.Split(strings.TrimSpace(sb.String()), "\n"), "route_added_by_the_reload": extra.host + extra.path, "matcher": m, "host": rh, "path": rp})
+								}
+							}
+						}
+					}
+				}
+			}
+		}
 		L.AddCases(n)
 	})
+	// the matchers themselves, on every pair of short strings over letters in both cases and the characters that sit
+	// next to them in ASCII (a case fold that is not restricted to letters confuses them)
+	alpha := []byte("aA~^[{@`_\x7f1/")
+	var strs []string
+	var gen func(cur []byte)
+	gen = func(cur []byte) {
+		if len(cur) > 0 {
+			strs = append(strs, "/"+string(cur))
+		}
+		if len(cur) == 2 {
+			return
+		}
+		for _, c := range alpha {
+			gen(append(cur, c))
+		}
+	}
+	gen(nil)
+	for _, p := range strs {
+		for _, u := range strs {
+			r := &Route{Path: p}
+			L.Case()
+			if got, want := prefixMatcher(u, r), strings.HasPrefix(u, p); got != want {
+				L.Violation("prefix-matcher-differs-from-its-definition", map[string]interface{}{"route_path": p, "request_path": u, "got": got})
+			}
+			if got, want := iPrefixMatcher(u, r), strings.HasPrefix(strings.ToLower(u), strings.ToLower(p)); got != want {
+				L.Violation("iprefix-matcher-differs-from-its-definition", map[string]interface{}{"route_path": p, "request_path": u, "got": got})
+			}
+		}
+	}
 	L.End(true)
 }
 
